@@ -121,6 +121,254 @@ func ftpTable(repo string) string {
 	return b.String()
 }
 
+// intIn returns the first integer literal inside an expression (e.g. 30 in `30 * time.Second`, 10 in
+// `rate.Every(time.Minute * 10)`).
+func intIn(e ast.Expr) (int, bool) {
+	found, val := false, 0
+	ast.Inspect(e, func(n ast.Node) bool {
+		if bl, ok := n.(*ast.BasicLit); ok && bl.Kind == token.INT && !found {
+			v, err := strconv.ParseInt(bl.Value, 0, 64)
+			if err == nil {
+				found, val = true, int(v)
+			}
+		}
+		return !found
+	})
+	return val, found
+}
+
+// constInt: the integer in the initialiser of the package-level constant or variable `name`.
+func constInt(repo, file, name string) int {
+	_, f := parseFile(filepath.Join(repo, file))
+	for _, d := range f.Decls {
+		gd, ok := d.(*ast.GenDecl)
+		if !ok {
+			continue
+		}
+		for _, sp := range gd.Specs {
+			vs, ok := sp.(*ast.ValueSpec)
+			if !ok {
+				continue
+			}
+			for i, n := range vs.Names {
+				if n.Name == name && i < len(vs.Values) {
+					if v, ok := intIn(vs.Values[i]); ok {
+						return v
+					}
+				}
+			}
+		}
+	}
+	fail("%s: constant %s with an integer initialiser not found", file, name)
+	return 0
+}
+
+// fieldInt: the integer in the value of the key `field` of a composite literal inside function `fn`.
+func fieldInt(repo, file, fn, field string) int {
+	_, f := parseFile(filepath.Join(repo, file))
+	res, found := 0, false
+	for _, d := range f.Decls {
+		fd, ok := d.(*ast.FuncDecl)
+		if !ok || fd.Name.Name != fn || fd.Body == nil {
+			continue
+		}
+		ast.Inspect(fd.Body, func(n ast.Node) bool {
+			kv, ok := n.(*ast.KeyValueExpr)
+			if !ok {
+				return true
+			}
+			if id, ok := kv.Key.(*ast.Ident); ok && id.Name == field {
+				if v, ok := intIn(kv.Value); ok && !found {
+					res, found = v, true
+				}
+			}
+			return true
+		})
+	}
+	if !found {
+		fail("%s: field %s in %s not found", file, field, fn)
+	}
+	return res
+}
+
+// callArgInt: the integer inside argument number `arg` of the first call of `callee` in function `fn`.
+func callArgInt(repo, file, fn, callee string, arg int) int {
+	_, f := parseFile(filepath.Join(repo, file))
+	res, found := 0, false
+	for _, d := range f.Decls {
+		fd, ok := d.(*ast.FuncDecl)
+		if !ok || fd.Name.Name != fn || fd.Body == nil {
+			continue
+		}
+		ast.Inspect(fd.Body, func(n ast.Node) bool {
+			ce, ok := n.(*ast.CallExpr)
+			if !ok || found {
+				return true
+			}
+			name := ""
+			switch t := ce.Fun.(type) {
+			case *ast.Ident:
+				name = t.Name
+			case *ast.SelectorExpr:
+				name = t.Sel.Name
+			}
+			if name == callee && arg < len(ce.Args) {
+				if v, ok := intIn(ce.Args[arg]); ok {
+					res, found = v, true
+				}
+			}
+			return true
+		})
+	}
+	if !found {
+		fail("%s: call of %s in %s not found", file, callee, fn)
+	}
+	return res
+}
+
+// memcachedStorage: the command names of the storage branch of the switch in memcachedService.Handle
+// (the case clauses that fall through into the one that reads the data block).
+func memcachedStorage(repo string) []string {
+	_, f := parseFile(filepath.Join(repo, "services/memcached.go"))
+	var verbs []string
+	ast.Inspect(f, func(n ast.Node) bool {
+		sw, ok := n.(*ast.SwitchStmt)
+		if !ok || len(verbs) > 0 {
+			return true
+		}
+		var run []string
+		for _, st := range sw.Body.List {
+			cc, ok := st.(*ast.CaseClause)
+			if !ok || len(cc.List) != 1 {
+				run = nil
+				continue
+			}
+			bl, ok := cc.List[0].(*ast.BasicLit)
+			if !ok || bl.Kind != token.STRING {
+				run = nil
+				continue
+			}
+			name, _ := strconv.Unquote(bl.Value)
+			if len(cc.Body) == 1 {
+				if br, ok := cc.Body[0].(*ast.BranchStmt); ok && br.Tok == token.FALLTHROUGH {
+					run = append(run, name)
+					continue
+				}
+			}
+			if len(run) > 0 { // the clause the others fall into
+				verbs = append(run, name)
+				return false
+			}
+			run = nil
+		}
+		return true
+	})
+	if len(verbs) == 0 {
+		fail("services/memcached.go: storage command clauses not found")
+	}
+	return verbs
+}
+
+// ippKinds: value tag -> decoder type, from the switch of attribGroup.decode and the tag constants.
+func ippKinds(repo string) [][2]string {
+	_, mf := parseFile(filepath.Join(repo, "services/ipp/message.go"))
+	consts := map[string]int{}
+	for _, d := range mf.Decls {
+		gd, ok := d.(*ast.GenDecl)
+		if !ok || gd.Tok != token.CONST {
+			continue
+		}
+		for _, sp := range gd.Specs {
+			vs := sp.(*ast.ValueSpec)
+			for i, n := range vs.Names {
+				if i < len(vs.Values) {
+					if v, ok := intIn(vs.Values[i]); ok {
+						consts[n.Name] = v
+					}
+				}
+			}
+		}
+	}
+	_, gf := parseFile(filepath.Join(repo, "services/ipp/group.go"))
+	var rows [][2]string
+	ast.Inspect(gf, func(n ast.Node) bool {
+		sw, ok := n.(*ast.SwitchStmt)
+		if !ok {
+			return true
+		}
+		if id, ok := sw.Tag.(*ast.Ident); !ok || id.Name != "vtag" {
+			return true
+		}
+		for _, st := range sw.Body.List {
+			cc := st.(*ast.CaseClause)
+			typ := ""
+			ast.Inspect(cc, func(m ast.Node) bool {
+				if cl, ok := m.(*ast.CompositeLit); ok {
+					if id, ok := cl.Type.(*ast.Ident); ok {
+						typ = id.Name
+					}
+				}
+				return true
+			})
+			for _, e := range cc.List {
+				id, ok := e.(*ast.Ident)
+				if !ok {
+					fail("ipp group.go: case expression is not a constant name")
+				}
+				v, ok := consts[id.Name]
+				if !ok {
+					fail("ipp: constant %s not found", id.Name)
+				}
+				rows = append(rows, [2]string{strconv.Itoa(v), typ})
+			}
+		}
+		return false
+	})
+	if len(rows) == 0 {
+		fail("services/ipp/group.go: switch on vtag not found")
+	}
+	sort.Slice(rows, func(i, j int) bool { a, _ := strconv.Atoi(rows[i][0]); b, _ := strconv.Atoi(rows[j][0]); return a < b })
+	return rows
+}
+
+func moreFacts(repo string) string {
+	var b strings.Builder
+	fmt.Fprintf(&b, "\n/-- `maxRedisDepth` in services/redis/redis.go -/\ndef maxRedisDepth : Nat := %d\n", constInt(repo, "services/redis/redis.go", "maxRedisDepth"))
+	fmt.Fprintf(&b, "\n/-- `loopTreshold` in services/smtp/conn.go -/\ndef smtpLoopThreshold : Nat := %d\n", constInt(repo, "services/smtp/conn.go", "loopTreshold"))
+	fmt.Fprintf(&b, "\n/-- `maxLineLength` in services/telnet/terminal.go -/\ndef telnetMaxLine : Nat := %d\n", constInt(repo, "services/telnet/terminal.go", "maxLineLength"))
+	fmt.Fprintf(&b, "\n/-- `passiveAcceptTimeout` (seconds) in services/ftp/socket.go -/\ndef ftpPassiveTimeout : Nat := %d\n", constInt(repo, "services/ftp/socket.go", "passiveAcceptTimeout"))
+	fmt.Fprintf(&b, "\n/-- burst and interval (minutes) of `NewLimiter` in services/limiter.go -/\ndef limiterBurst : Nat := %d\ndef limiterIntervalMinutes : Nat := %d\n",
+		fieldInt(repo, "services/limiter.go", "NewLimiter", "burst"), fieldInt(repo, "services/limiter.go", "NewLimiter", "interval"))
+	fmt.Fprintf(&b, "\n/-- idle timeout (seconds) the server wraps every connection with: `TimeoutConn(newConn, time.Second*N)` in (*Honeytrap).handle -/\ndef idleTimeout : Nat := %d\n",
+		callArgInt(repo, "server/honeytrap.go", "handle", "TimeoutConn", 1))
+	verbs := memcachedStorage(repo)
+	var q []string
+	for _, v := range verbs {
+		q = append(q, strconv.Quote(v))
+	}
+	fmt.Fprintf(&b, "\n/-- the storage commands of the switch in memcachedService.Handle (the clauses falling into the data-block reader) -/\ndef memcachedStorage : List String := [%s]\n", strings.Join(q, ", "))
+	var bl []string
+	for _, v := range verbs {
+		var bs []string
+		for _, c := range []byte(v) {
+			bs = append(bs, strconv.Itoa(int(c)))
+		}
+		bl = append(bl, "["+strings.Join(bs, ", ")+"]")
+	}
+	fmt.Fprintf(&b, "\n/-- the same as bytes -/\ndef memcachedStorageBytes : List (List UInt8) := [%s]\n", strings.Join(bl, ", "))
+	b.WriteString("\n/-- (value tag, decoder type) for every case of the switch in attribGroup.decode (services/ipp/group.go), tags from message.go -/\ndef ippKinds : List (Nat × String) := [\n")
+	rows := ippKinds(repo)
+	for i, r := range rows {
+		sep := ","
+		if i == len(rows)-1 {
+			sep = ""
+		}
+		fmt.Fprintf(&b, "  (%s, %q)%s\n", r[0], r[1], sep)
+	}
+	b.WriteString("]\n")
+	return b.String()
+}
+
 func main() {
 	if len(os.Args) != 3 {
 		fail("usage: extract <repo> <outdir>")
@@ -130,6 +378,7 @@ func main() {
 	b.WriteString("/-! GENERATED by /verif/extract from the repository's sources on every run. Do not edit. -/\n")
 	b.WriteString("namespace HT.Gen\n\n")
 	b.WriteString(ftpTable(repo))
+	b.WriteString(moreFacts(repo))
 	b.WriteString("\nend HT.Gen\n")
 	if err := os.WriteFile(filepath.Join(out, "Facts.lean"), []byte(b.String()), 0644); err != nil {
 		fail("%v", err)
